@@ -262,7 +262,9 @@ def run(ctx):
     # ---- R4 = C15/R1-R2 ------------------------------------------------------------------------------------------------
     c15 = importlib.import_module("rules.C15")
     before = len(ctx.obs)
+    own_floors = dict(ctx.floors)
     c15.run(ctx)
+    ctx.floors = own_floors        # the included module's floors are reported under its own property
     keep = []
     for o in ctx.obs[before:]:
         if o["rule"] == "R1" or (o["rule"] == "R2" and (o["instance"] == "inventory" or any(x in o["instance"] for x in
